@@ -65,6 +65,9 @@ type stepBind struct {
 	sym    slip.Symbol
 	step   slip.Object
 	result slip.Object
+	// stepped is true when the binding has a step-form. A variable without
+	// one keeps its value from one iteration to the next.
+	stepped bool
 }
 
 // Call the function with the arguments provided.
@@ -110,10 +113,14 @@ func (f *Do) Call(s *slip.Scope, args slip.List, depth int) (result slip.Object)
 			}
 		}
 		for _, sb := range steps {
-			sb.result = ns.Eval(sb.step, d2)
+			if sb.stepped {
+				sb.result = ns.Eval(sb.step, d2)
+			}
 		}
 		for _, sb := range steps {
-			ns.UnsafeLet(sb.sym, sb.result)
+			if sb.stepped {
+				ns.UnsafeLet(sb.sym, sb.result)
+			}
 		}
 	}
 	return
@@ -148,6 +155,7 @@ func setupDo(s, ns *slip.Scope, args slip.List, depth int) (steps []*stepBind, t
 				// they are evaluated in apparent parallel.
 				ns.UnsafeLet(sym, slip.EvalArg(s, tb, 1, depth))
 				if 2 < len(tb) {
+					sb.stepped = true
 					sb.step = tb[2]
 					if list, ok := sb.step.(slip.List); ok {
 						sb.step = slip.ListToFunc(s, list, depth)
